@@ -79,5 +79,6 @@ package dkg
 //@ func LoadBLSKeyringFromBytes
 //@   safety C18
 //@   nosafety
-//@   modifies *
+//@   pure
+//@   modifies $bufc
 //@   ensures[C18.keyring.nonnil] result1 == nil ==> result0 != nil
